@@ -46,6 +46,18 @@ pub enum RefOut {
 ///  5. members get `bias` added and those above `max` are dropped; the bits up to the
 ///     next byte boundary are padding; what follows is the unread remainder.
 pub fn ref_decode(data: &[u8], bias: u32, max: u32) -> RefOut {
+    ref_decode_vol(data, bias, max).0
+}
+
+/// As [`ref_decode`], also returning the number of integers covered by filled
+/// nodes that were read before the end (or before the stream proved invalid).
+pub fn ref_decode_vol(data: &[u8], bias: u32, max: u32) -> (RefOut, u128) {
+    let mut vol = 0u128;
+    let r = ref_decode_inner(data, bias, max, &mut vol);
+    (r, vol)
+}
+
+fn ref_decode_inner(data: &[u8], bias: u32, max: u32, vol: &mut u128) -> RefOut {
     let Some(header) = data.first() else {
         return RefOut::Invalid;
     };
@@ -81,6 +93,7 @@ pub fn ref_decode(data: &[u8], bias: u32, max: u32) -> RefOut {
             let hi = start.saturating_add(size - 1).saturating_add(bias).min(max);
             if lo <= max {
                 intervals.push((lo as u32, hi as u32));
+                *vol += hi - lo + 1;
             }
         } else {
             for i in 0..bn {
@@ -107,6 +120,22 @@ fn set_to_iv(s: &IntSet<u32>) -> Iv {
     Iv(s.iter_ranges().map(|r| (*r.start(), *r.end())).collect())
 }
 
+struct SlowGuard {
+    t: std::time::Instant,
+    data: Vec<u8>,
+    bias: u32,
+    max: u32,
+    origin: &'static str,
+}
+impl Drop for SlowGuard {
+    fn drop(&mut self) {
+        let dt = self.t.elapsed().as_secs_f64();
+        if dt > 0.25 && std::env::var("VF_TIMING").is_ok() {
+            eprintln!("c14 slow decode {:.2}s {} bias={} max={} len={} bytes={}", dt, self.origin, self.bias, self.max, self.data.len(), hex(&self.data[..self.data.len().min(40)]));
+        }
+    }
+}
+
 pub struct Codec {
     pub tally: Tally,
     pub violations: u32,
@@ -124,7 +153,7 @@ impl Codec {
     }
 
     fn nontrivial(&mut self, ctx: &mut Ctx, tag: &str, bytes: &[u8], extra: u64) {
-        if self.nt_seen.len() >= 60_000 {
+        if self.nt_seen.len() >= 30_000 {
             return;
         }
         let mut d = Digest::new();
@@ -278,27 +307,35 @@ impl Codec {
             return;
         }
         ctx.eval();
+        let t_start = std::time::Instant::now();
+        let _slow = SlowGuard { t: t_start, data: data.to_vec(), bias, max, origin };
         let (mut bias, mut max) = (bias, max);
         let header = data.first().copied();
         let within = header.map(|h| ((h >> 2) & 31) as u32 <= supported_height(BF[(h & 3) as usize])).unwrap_or(true);
-        let mut reference = if within { Some(ref_decode(data, bias, max)) } else { None };
+        let (mut reference, mut vol) = if within {
+            let (r, v) = ref_decode_vol(data, bias, max);
+            (Some(r), v)
+        } else {
+            (None, 0)
+        };
         // A filled node near the root means hundreds of MB of pages in the library; keep
         // a budget for those and otherwise narrow `max` (the bytes stay the same).
-        if let Some(RefOut::Ok { members, .. }) = &reference {
-            if members.len() > (1 << 27) {
-                if self.heavy_budget > 0 && members.len() <= (1 << 30) {
-                    self.heavy_budget -= 1;
-                    self.tally.add("codec:heavy_fill_run_unclipped", 1);
-                } else {
-                    self.tally.add("codec:heavy_fill_max_narrowed", 1);
-                    if bias > u32::MAX - (1 << 22) {
-                        bias = u32::MAX - (1 << 22);
-                    }
-                    max = max.min(bias + (1 << 22));
-                    reference = Some(ref_decode(data, bias, max));
+        if vol > (1 << 22) {
+            if self.heavy_budget > 0 && vol <= (1 << 26) {
+                self.heavy_budget -= 1;
+                self.tally.add("codec:heavy_fill_run_unclipped", 1);
+            } else {
+                self.tally.add("codec:heavy_fill_max_narrowed", 1);
+                if bias > u32::MAX - (1 << 20) {
+                    bias = u32::MAX - (1 << 20);
                 }
+                max = max.min(bias + (1 << 20));
+                let (r, v) = ref_decode_vol(data, bias, max);
+                reference = Some(r);
+                vol = v;
             }
         }
+        let _ = vol;
         let d = data.to_vec();
         let plain = bias == 0 && max == u32::MAX;
         let r = guard(move || {
@@ -399,7 +436,7 @@ pub fn gen_codec_set(rng: &mut Rng) -> Iv {
             0 => {
                 // aligned block of size b^k
                 let k = 1 + rng.below(if b == 2 { 14 } else if b == 32 { 3 } else { 5 }) as u32;
-                let size = b.pow(k).min(1 << 15);
+                let size = b.pow(k).min(1 << 11);
                 let idx = rng.below(((1u64 << 32) / size).min(1 << 20));
                 let idx = if rng.bool() { idx % 5 } else { idx };
                 let lo = idx * size;
